@@ -495,8 +495,13 @@ def header_reader(ctx) -> Dict[bytes, Tuple[str, ast.AST]]:
 def header_writer(ctx) -> Dict[bytes, Tuple[set, ast.AST]]:
     """header key -> (self fields read, node) from `b"#KEY " + ...` in _write_file_header."""
     M = ctx.M
-    wr = M.fn(f"{BMSMAP}._write_file_header")
+    wr = M.nfn(f"{BMSMAP}._write_file_header")      # (private helpers inlined)
     out = {}
+    # locals bound once: the fields a header value reads include those its local operands were computed from
+    ldefs = {}
+    for x in walk_no_nested(wr.node):
+        if isinstance(x, ast.Assign) and len(x.targets) == 1 and isinstance(x.targets[0], ast.Name):
+            ldefs.setdefault(x.targets[0].id, []).append(x.value)
     for n in walk_no_nested(wr.node):
         if isinstance(n, ast.BinOp) and isinstance(n.op, ast.Add):
             # leftmost operand of the + chain
@@ -506,6 +511,9 @@ def header_writer(ctx) -> Dict[bytes, Tuple[set, ast.AST]]:
             if isinstance(l, ast.Constant) and isinstance(l.value, bytes) and l.value.startswith(b"#") and len(l.value) > 1:
                 key = l.value[1:].strip() if l.value.endswith(b" ") or l.value == b"#" else l.value[1:] + b"xx"
                 fields = {C.self_attr(x) for x in ast.walk(n) if C.self_attr(x)}
+                for x in ast.walk(n):
+                    if isinstance(x, ast.Name) and len(ldefs.get(x.id, [])) == 1:
+                        fields |= {C.self_attr(y) for y in ast.walk(ldefs[x.id][0]) if C.self_attr(y)}
                 # loop-carried: for e, b in enumerate(self.bpms, 1) / for k, v in self.samples.items()
                 names = {x.id for x in ast.walk(n) if isinstance(x, ast.Name)}
                 for f in walk_no_nested(wr.node):
